@@ -170,13 +170,15 @@ fn pre_for(site: Site, pos: usize) -> Vec<Pre> {
             let x = [0x05u8, 0xfc, 0x64, 0x6c][pos - 5];
             vec![Pre::Intermediate { status: 0x0e, timeout: 0 }, Pre::StatusWithResult(x)]
         }
+        // one intermediate status with the value under test
+        11 if has_inter => vec![Pre::Intermediate { status: STATUS_BYTE.with(|s| s.get()), timeout: 0 }],
         _ => vec![],
     }
 }
 
 pub fn run(ctx: &Ctx) -> i32 {
     let mut report = ctx.report("C20", "exploration");
-    report.rule = "all 256 result codes x 14 abort sites {commit / cancel of one transaction while another one stays open, read_card, begin (reservation), commit (partial reversal), cancel (pre-auth reversal), configure: system info / set terminal id / initialization / reversal of a dangling pre-authorisation / end-of-day, end-of-day inside commit and inside cancel, reversal of a dangling pre-authorisation inside commit} x position of the abort in the reply script {first reply, after 1, 2, 3 intermediate statuses, after a status information (for a reservation: one already carrying a receipt number), after a receipt-less status information whose own result code (BMP 27) is 05 / FC / 64 / 6C, and (end-of-day / partial-reversal / pre-auth-reversal sites) the abort in its long form carrying a receipt number 4711 / FFFF}; and every (code, site) again with a connection fault (close / garbage) at the acknowledgement of the first attempt of that exchange, so that the abort answers the client's retry; and for read_card every code again arriving only after the terminal's own card time-out (read_card_timeout in {0,1,15,253,254,255} s plus 0.1-1.9 s, inside the client's grace period). Oracle: the call fails and the error identifies c (ZVTError::Aborted(c) in the chain, or the text contains the specification's message for c from an independently typed table, or c as a hex/decimal token); exactly three translations: read_card+6C -> NoCardPresented, reservation+FC -> NeedsPinEntry, end-of-day+A0 -> tolerated (the caller's own result stands). Duplicate-free enumeration; non-trivial = every case.".into();
+    report.rule = "all 256 result codes x 14 abort sites {commit / cancel of one transaction while another one stays open, read_card, begin (reservation), commit (partial reversal), cancel (pre-auth reversal), configure: system info / set terminal id / initialization / reversal of a dangling pre-authorisation / end-of-day, end-of-day inside commit and inside cancel, reversal of a dangling pre-authorisation inside commit} x position of the abort in the reply script {first reply, after 1, 2, 3 intermediate statuses, after a status information (for a reservation: one already carrying a receipt number), after a receipt-less status information whose own result code (BMP 27) is 05 / FC / 64 / 6C, and (end-of-day / partial-reversal / pre-auth-reversal sites) the abort in its long form carrying a receipt number 4711 / FFFF}; and every (code, site) again with a connection fault (close / garbage) at the acknowledgement of the first attempt of that exchange, so that the abort answers the client's retry; for read_card / begin / commit / cancel every one of the 256 intermediate status values in front of every code; and for read_card every code again arriving only after the terminal's own card time-out (read_card_timeout in {0,1,15,253,254,255} s plus 0.1-1.9 s, inside the client's grace period). Oracle: the call fails and the error identifies c (ZVTError::Aborted(c) in the chain, or the text contains the specification's message for c from an independently typed table, or c as a hex/decimal token); exactly three translations: read_card+6C -> NoCardPresented, reservation+FC -> NeedsPinEntry, end-of-day+A0 -> tolerated (the caller's own result stands). Duplicate-free enumeration; non-trivial = every case.".into();
     report.exhaustive = Some(true);
     report.assumptions = vec!["the pending query is answered by the terminal with an abort-shaped packet by protocol design (2.10.1) and is not an abort site; aborts during the handshake are connection failures (C09)".into()];
     assert_eq!(SPEC_MESSAGES.len(), 79);
@@ -197,6 +199,22 @@ pub fn run(ctx: &Ctx) -> i32 {
                         one(r, &schema, site, code, pos, Some(FaultKind::Close));
                         one(r, &schema, site, code, pos, Some(FaultKind::Garbage));
                     }
+                }
+            }
+        }
+    });
+    // every intermediate status value x every result code: the code of the operation is the abort's, whatever the terminal
+    // displayed before
+    sharded(&mut report, threads, |shard, r| {
+        let mut k = 0usize;
+        for site in [Site::ReadCard, Site::Begin, Site::Commit, Site::Cancel] {
+            for status in 0..=255u8 {
+                for code in 0..=255u8 {
+                    k += 1;
+                    if k % threads != shard {
+                        continue;
+                    }
+                    one_status(r, &schema, site, code, status);
                 }
             }
         }
@@ -225,12 +243,22 @@ fn one(r: &mut Report, schema: &Arc<refcodec::layout::Schema>, site: Site, code:
     one_at(r, schema, site, code, pos, prior_fault, None)
 }
 
+thread_local! {
+    /// intermediate status byte used by position 11 (see `pre_for`)
+    static STATUS_BYTE: std::cell::Cell<u8> = const { std::cell::Cell::new(0) };
+}
+
+fn one_status(r: &mut Report, schema: &Arc<refcodec::layout::Schema>, site: Site, code: u8, status: u8) {
+    STATUS_BYTE.with(|s| s.set(status));
+    one_at(r, schema, site, code, 11, None, None)
+}
+
 /// `late`: (read_card_timeout, extra ms) - read_card only: the terminal reports the abort that long after the request,
 /// i.e. just after its own card time-out has run out (inside the client's documented grace of 2 s).
 fn one_at(r: &mut Report, schema: &Arc<refcodec::layout::Schema>, site: Site, code: u8, pos: usize, prior_fault: Option<FaultKind>, late: Option<(u8, u64)>) {
     let mut sc = Scenario::default();
     let pre = pre_for(site, pos);
-    if pre.is_empty() && pos != 0 && pos < 9 {
+    if pre.is_empty() && pos != 0 && !(pos == 9 || pos == 10) {
         return; // position not applicable to this site
     }
     let mut abort = ExPlan { pre, result: ExResult::Abort(code), ..ExPlan::default() };
